@@ -5,6 +5,7 @@ package c20
 import (
 	"bytes"
 	"context"
+	"errors"
 	"fmt"
 	"sort"
 	"strings"
@@ -84,6 +85,11 @@ type scen struct {
 	// lost NewSessionTicket datagram has not been retransmitted yet: the ticket flight is still unacknowledged
 	// when the first key update starts (without it the association is run to full quiescence first)
 	NoSettle bool
+	// FailSide / FailNth (FailNth > 0): the FailNth-th datagram that side hands to its transport in the data
+	// phase is refused once (transient local send error): nothing leaves for it. Whatever the library makes of
+	// the failed send, calls that then report success must still mean what the property says.
+	FailSide side
+	FailNth  int
 }
 
 func (s scen) id() string {
@@ -102,6 +108,9 @@ func (s scen) id() string {
 	}
 	if s.NoSettle {
 		id += "-still-pending"
+	}
+	if s.FailNth > 0 {
+		id += fmt.Sprintf("/send%d-of-%s-refused", s.FailNth, s.FailSide)
 	}
 	return id
 }
@@ -626,6 +635,9 @@ func (x *exec) run() {
 	x.startReader(cli)
 	x.startReader(srv)
 	x.endStep()
+	if sc.FailNth > 0 {
+		x.ep(sc.FailSide).PC.FailWriteNumber(sc.FailNth, errors.New("injected transient send error"))
+	}
 	mg := maxGenFor(sc.Ops)
 	for i, k := range sc.Ops {
 		if sc.Inj != nil && sc.Inj.At == i {
